@@ -78,6 +78,42 @@ def gen_cross_dtype(rng, i):
     return fp.Case(mb, info, cmds=cmds, data=gm.random_inputs(mb, rng, n=1), desc=[("cross-dtype alias", cfg["act"]["bits"])])
 
 
+def gen_twin_concat(rng, i):
+    """two signatures that are copies of each other (same operators, same calibration data): the CONSTANT operand of a CONCATENATION --
+    which borrows its parameters from the operator's result -- is ONE buffer behind one tensor per signature, with equal requests"""
+    import numpy as np
+    from ai_edge_litert import schema_py_generated as s
+    from .. import gen_models as gm
+    g = gm.G()
+    n = rng.choice([4, 8, 8, 12])
+    cdata = np.random.RandomState(rng.randrange(2 ** 31)).randn(1, n).astype(np.float32)
+    shared = None
+    for si in range(2):
+        g.subgraph(("sg%d" % si).encode())
+        gr = gm.Grower(g, rng, "s%d/" % si)
+        x = gr.add_input([1, n])
+        if shared is None:
+            c = g.tensor(gr.name("c"), [1, n], data=cdata)
+            shared = g.sg.tensors[c].buffer
+        else:
+            c = g.tensor(gr.name("c"), [1, n], buffer=shared)
+        y = gr.new_act([2, n])
+        co = s.ConcatenationOptionsT()
+        co.axis = 0
+        g.op(gm.BO.CONCATENATION, [x, c], [y], gm.OPT.ConcatenationOptions, co)
+        z = gr.new_act([2, n])
+        g.op(gm.BO.TANH, [y], [z])
+        g.io(gr.inputs, [z], sig="sig%d" % si)
+    mb = g.bytes()
+    one = gm.random_inputs(mb, rng, n=1)
+    first = next(iter(one.values()))
+    data = {sig: [dict(zip(smp.keys(), first[0].values())) for smp in samples] for sig, samples in one.items()}   # the SAME sample for both
+    info = {"tags": {"twin_signatures_tied_concat_constant"}, "subgraphs": [{"sig": "sig%d" % si, "int_inputs": [], "ops": ["CONCATENATION", "TANH"]} for si in range(2)]}
+    cfg = pl_uniform()[rng.choice(["a8w8", "a8sw8t", "a16w8"])]
+    cmds = [{"k": "add", "regex": ".*", "operation": "*", "cfg": cfg, "alg": "min_max_uniform_quantize"}]
+    return fp.Case(mb, info, cmds=cmds, data=data, desc=[("twin concat constant", cfg["act"]["bits"], n)])
+
+
 def pl_shipped():
     from .. import pipeline as pl
     return pl.shipped_recipes()
@@ -116,6 +152,7 @@ def run(ctx):
     fp.explore(ctx, drv, n // 2, per_case, gen=lambda rng, i: fp.gen_case(rng, i, share_every=1, const_output=0.35 if i % 2 else 0.0), graph_corr=False, pipe_corr=True)
     # one buffer behind tensors of DIFFERENT types (identical bytes aliased by the converter): rejected, or every referent still agrees with it
     fp.explore(ctx, drv, 30 if ctx.tier == "quick" else 300, per_case, gen=gen_cross_dtype, graph_corr=False, pipe_corr=True)
+    fp.explore(ctx, drv, 16 if ctx.tier == "quick" else 150, per_case, gen=gen_twin_concat, graph_corr=False, pipe_corr=True)
     # BLOCKWISE weights (emulated sub-channel pattern, reachable with skip_checks only; outside the Lean model): the weight's buffer also
     # backs a tensor nobody reads / the weight of a second operator the rule does not cover — rejected, or every referent agrees with the bytes
     from .. import pipeline as pl
